@@ -138,4 +138,16 @@ theorem one_witness_per_creator_and_round (g : List Nat) (es : List HG.Ev) (hnd 
     (hry : y.round = some r) (hrz : z.round = some r) : y = z :=
   HG.witness_unique g es hnd hfresh y z r hy hz hc hwy hwz hry hrz
 
+/-- non-vacuity of the three theorems above: two validators; `d` is the witness of round 1 on
+    validator 1's chain (its self-parent `b` is a witness of round 0), `c` is not a witness -/
+example :
+    let es : List HG.Ev := [
+      { id := "a", creator := 0, index := 0, sp := "", op := "", ts := 1, key := 1, mid := true },
+      { id := "b", creator := 1, index := 0, sp := "", op := "", ts := 2, key := 2, mid := true },
+      { id := "c", creator := 0, index := 1, sp := "a", op := "b", ts := 3, key := 3, mid := true },
+      { id := "d", creator := 1, index := 1, sp := "b", op := "c", ts := 4, key := 4, mid := true }]
+    ((HG.runAll (HG.St.init [0, 1]) es).events.map (fun e => (e.id, e.round, e.wit))) =
+      [("d", some 1, some true), ("c", some 0, some false), ("b", some 0, some true), ("a", some 0, some true)] := by
+  decide
+
 end Babble.Props.C03
